@@ -222,6 +222,25 @@ pub fn run(tier: &str, seed: i64) -> Outcome {
             acc.count("base states with all single-feature variants");
             variants_visit(ctx, acc, h);
             reached_variants(ctx, acc);
+            // the hashes a tree walk sees: every legal move made and taken back in turn on ONE game (as a search does),
+            // each successor's hash entered under the successor's key. A make that relies on what the previous unmake
+            // left behind (a per-square memo, a saved-hash stack) gives two different successors one hash here although
+            // every hash reached by making moves only is right.
+            let mut walk = g.clone();
+            for m in ctx.pos.legal() {
+                let t = m.uci();
+                let Some(em) = find_move(&mut walk, &t) else { continue };
+                if let Ok(hh) = guarded(|| {
+                    walk.push(em);
+                    let x = walk.hash();
+                    walk.pop(em);
+                    x
+                }) {
+                    acc.pairs.push((hh, ctx.pos.apply(&m).normalised().key()));
+                    acc.transitions += 1;
+                    acc.count("hashes of successors reached in a make/unmake walk entered into the table");
+                }
+            }
             if acc.samples.len() < 2 {
                 acc.sample(json::obj(vec![("base", json::s(ctx.pos.fen6(false))), ("hash", json::s(format!("{:X}", h))), ("variants", json::s("side, 4 rights, 9 ep values pairwise, 62 squares x 10 other non-king contents"))]));
             }
@@ -284,7 +303,7 @@ pub fn run(tier: &str, seed: i64) -> Outcome {
     for b in bad {
         acc.violation(format!("keytable|{}", b), format!("key file: {}", b), json::obj(vec![("kind", json::s("keytable"))]));
     }
-    let mut out = Outcome::new(acc, reports, "(a) every state of every listed space enters one global table engine-hash -> model key; no hash may map to two keys. (b) for a fixed-stride subset of base states, every single-feature variant (side; each right; all 9 en-passant values pairwise; each non-king square to each of the 10 other non-king contents) is loaded from text with Game::new and must hash differently; the hash carried after every move out of a base state must differ from every state-feature variant of the successor. (c) pairwise distinctness inside the key file per feature");
+    let mut out = Outcome::new(acc, reports, "(a) every state of every listed space enters one global table engine-hash -> model key; no hash may map to two keys. (b) for a fixed-stride subset of base states, every single-feature variant (side; each right; all 9 en-passant values pairwise; each non-king square to each of the 10 other non-king contents) is loaded from text with Game::new and must hash differently; the hash carried after every move out of a base state must differ from every state-feature variant of the successor; the successors' hashes seen in a make/unmake walk over all legal moves on one game enter the table of (a). (c) pairwise distinctness inside the key file per feature");
     out.traces_validated = out.acc.transitions;
     out.assumptions = vec![
         "collision freedom is established over the positions visited in this run, not over all of chess".into(),
